@@ -208,3 +208,31 @@ def site_references():
             return {"confirmed": True, "input": inp, "actual": sorted(set(bad))[:8], "expected": "every reference is a link that leads to its target from the page it is shown on",
                     "how": f"end-to-end run; {n} links on {npages} pages followed; the links expected from the comments looked up by their text"}
     return None
+
+
+def extra_mods_quoted():
+    """the documented spelling of a module outside the project: `extra_mods: json_module: "http://..."` (quoted, a blank after the colon).  [[json_module]] links to that URL as it is"""
+    st = loader.import_repo("ford.settings")
+    mdm = loader.import_repo("ford._markdown")
+    fp = loader.import_repo("ford.fortran_project")
+    import io, contextlib
+    src = {"src/m.f90": "module m\n  !! uses [[json_module]]\n  use json_module\nend module m\n"}
+    bad = []
+    for spelling in ('json_module: "http://jacobwilliams.github.io/json-fortran"', "json_module:'http://jacobwilliams.github.io/json-fortran'", "json_module: http://jacobwilliams.github.io/json-fortran"):
+        realrun.reset_names()
+        with realrun.project_dir(src) as d:
+            import pathlib
+            with contextlib.redirect_stdout(io.StringIO()), contextlib.redirect_stderr(io.StringIO()):
+                settings, _ = st.load_markdown_settings(pathlib.Path(d), f"---\nsrc_dir: ./src\npreprocess: false\nextra_mods: {spelling}\n---\ntext\n", "proj.md")
+                settings.normalise_paths(pathlib.Path(d)) if hasattr(settings, "normalise_paths") else None
+                proj = fp.Project(settings)
+                proj.correlate()
+                md = mdm.MetaMarkdown(project=proj, base_url=".")
+                out = md.reset().convert("[[json_module]]", context=proj.modules[0])
+        m = re.search(r"<a href=['\"]([^'\"]*)['\"]", out)
+        if not m or m.group(1) != "http://jacobwilliams.github.io/json-fortran":
+            bad.append(f"extra_mods: {spelling}  ->  [[json_module]] rendered as {out.strip()[:120]}")
+    if bad:
+        return {"confirmed": True, "input": {"project file metadata": "extra_mods: json_module: \"http://...\""}, "actual": bad, "expected": "a link to http://jacobwilliams.github.io/json-fortran",
+                "how": "real settings loader + Project + MetaMarkdown.convert"}
+    return None
